@@ -38,6 +38,11 @@ pub mod trusted_axioms {
     pub broadcast proof fn axiom_maps_str_key_to_value<V>(m: Map<String, V>, k: &str, v: V)
         ensures #[trigger] vstd::std_specs::hash::maps_borrowed_key_to_value::<String, V, str>(m, k, v) == (exists|s: String| s@ == k@ && m.contains_key(s) && m[s] == v)
     {}
+    // std's by-value array iterator obeys the (prophetic) iterator laws
+    #[verifier::external_body]
+    pub broadcast proof fn axiom_arr_into_iter_laws<T, const N: usize>(it: std::array::IntoIter<T, N>)
+        ensures #[trigger] it.obeys_prophetic_iter_laws(),
+    {}
     // std's by-value HashMap iterator obeys the (prophetic) iterator laws
     #[verifier::external_body]
     pub broadcast proof fn axiom_hm_into_iter_laws<K, V, A: std::alloc::Allocator>(it: std::collections::hash_map::IntoIter<K, V, A>)
@@ -55,7 +60,7 @@ pub mod proved_lemmas {
         assert(s.unref().contains(*s[i]));
     }
 }
-broadcast use {proved_lemmas::lemma_unref_to_set_contains, trusted_axioms::axiom_contains_str_key, trusted_axioms::axiom_maps_str_key_to_value, trusted_axioms::axiom_contains_ref_key, trusted_axioms::axiom_maps_ref_key_to_value, trusted_axioms::axiom_hashmap_from_iter, trusted_axioms::axiom_fmt_never_panics, trusted_axioms::axiom_hm_into_iter_laws,
+broadcast use {proved_lemmas::lemma_unref_to_set_contains, trusted_axioms::axiom_contains_str_key, trusted_axioms::axiom_maps_str_key_to_value, trusted_axioms::axiom_contains_ref_key, trusted_axioms::axiom_maps_ref_key_to_value, trusted_axioms::axiom_hashmap_from_iter, trusted_axioms::axiom_fmt_never_panics, trusted_axioms::axiom_hm_into_iter_laws, trusted_axioms::axiom_arr_into_iter_laws,
                vstd::std_specs::fmt::group_fmt_axioms, vstd::std_specs::hash::group_hash_axioms};
 
 #[verifier::reject_recursive_types(A)]
@@ -65,3 +70,7 @@ broadcast use {proved_lemmas::lemma_unref_to_set_contains, trusted_axioms::axiom
 #[verifier::external_body]
 pub struct ExHmIntoIter<K, V, A>(std::collections::hash_map::IntoIter<K, V, A>)
 where A: std::alloc::Allocator,;
+#[verifier::reject_recursive_types(T)]
+#[verifier::external_type_specification]
+#[verifier::external_body]
+pub struct ExArrIntoIter<T, const N: usize>(std::array::IntoIter<T, N>);
